@@ -6,6 +6,7 @@ import (
 	"go/token"
 	"go/types"
 	"sort"
+	"strings"
 
 	"asverif/internal/gf"
 	"asverif/internal/load"
@@ -367,6 +368,11 @@ func runC12(c *Ctx) {
 	// end well: otherwise the status written has the finished pod's ordinal missing from replicas, and the completion
 	// rule can fire for a pass that saw a pod that was neither updated nor ready (the replacement rule of C03, as a clause)
 	c.withOnly(map[string]string{"C03.2-class-b-replaced": "C12.1-lowered-total-is-counted-back"}, nil, "C12.1-replacements", 1, func() { runC03(c) })
+	// "a status write is issued whenever the computed status differs from the stored one": the comparison is against what
+	// is stored only while nothing writes the computed status into the cached object -- a status assigned into the cache
+	// copy before a write that then fails makes the retry see "no change" and the stored status stays stale for good
+	// (the copy rules of C10.7, as a clause of this property)
+	c.withOnly(map[string]string{"C10.7-cache-objects-unmodified": "C12.5-stored-status-is-compared-not-a-written-through-cache-copy", "C10.7-control-gets-copy": "C12.5-the-control-works-on-a-copy-of-the-cached-set"}, func(s string) bool { return !strings.Contains(s, "Pod") && !strings.Contains(s, "pod") }, "C12.5-cache-copy", 2, c.cacheObjectsUnmodified)
 }
 
 // statusOnlyAfterCompletePass: the counters are a census of the pods only once the pass has run to its
